@@ -231,10 +231,10 @@ def directive_accounting(ctx, case, o):
             initial = False
             for d in ds:
                 if d[0] == ".cfi_startproc":
-                    initial = True           # what follows at this location is the procedure's initial state
+                    initial = True           # what follows at this location is the procedure's initial state: it stays
                 elif d[0] == ".cfi_endproc":
                     initial = False
-                elif d[0] not in STRUCTURAL and not initial and not (drop and drop(b, k)):
+                elif d[0] not in STRUCTURAL and not (drop and not initial and drop(b, k)):
                     out.append(json.dumps([d[0], d[1]]))
         return sorted(out)
 
@@ -242,6 +242,14 @@ def directive_accounting(ctx, case, o):
     for led in o["edits"]:
         if led["del"]:
             ranges.setdefault(led["block"], []).append((led["off"], led["off"] + led["del"]))
+    # a procedure that lies wholly inside a deleted range goes as a whole (startproc, endproc and all): not accounted here
+    for b, k, ds in o["before"]["aux"]["cfi"]:
+        for s_, e_ in ranges.get(b, []):
+            if s_ <= k <= e_ and any(d[0] == ".cfi_startproc" for d in ds):
+                if any(b2 == b and s_ <= k2 <= e_ and any(d[0] == ".cfi_endproc" for d in ds2) and (k2, 1) > (k, 0)
+                       for b2, k2, ds2 in o["before"]["aux"]["cfi"]):
+                    ctx.count("directive-accounting:skipped-whole-procedure")
+                    return
     want = ordinary(o["before"], lambda b, k: any(s < k <= e for s, e in ranges.get(b, [])))
     got = ordinary(o["after"])
     ctx.count("directive-accounting")
@@ -353,6 +361,44 @@ def tail_patch(case, rng):
     return case
 
 
+def cold_block(rng):
+    """a procedure whose last block stands alone between data (a cold part behind a jump table): it is deleted whole,
+    with or without retarget_to_proxy; the .cfi_endproc it carries has to survive somewhere"""
+    n1 = rng.randint(1, 3)
+    text = [
+        {"kind": "code", "func": 0, "entry": True, "insns": [["push"]] * n1 + [["jmp", "cold"]], "syms": [{"name": "f", "at_end": False}],
+         "cfi": [[0, [[".cfi_startproc", [], None], [".cfi_def_cfa", [7, 8], None]]]]},
+        {"kind": "data", "bytes": [rng.randrange(256) for _ in range(rng.choice([4, 8]))], "syms": [{"name": "tbl", "at_end": False}]},
+        {"kind": "code", "func": 0, "insns": [["nop"]] * rng.randint(1, 2) + [["ret"]], "syms": [{"name": "cold", "at_end": False}]},
+        {"kind": "data", "bytes": [0] * rng.choice([1, 3]), "syms": []},
+        {"kind": "code", "func": 1, "entry": True, "insns": [["nop"], ["ret"]], "syms": [{"name": "g", "at_end": False}],
+         "cfi": [[0, [[".cfi_startproc", [], None], [".cfi_def_cfa", [7, 8], None]]], [2, [[".cfi_endproc", [], None]]]]},
+    ]
+    text[2]["cfi"] = [[emodify.block_size(text[2]), [[".cfi_endproc", [], None]]]]
+    if rng.random() < 0.3:
+        text.pop(3)
+    edits = [{"op": "delete", "block": 2, "off": 0, "len": emodify.block_size(text[2]), "proxy": rng.random() < 0.6}]
+    return {"isa": "X64", "ff": "ELF", "text": text, "externs": ["ext_a"], "edits": edits}
+
+
+def first_block_deleted(rng):
+    """the first block of a procedure carries, behind its .cfi_startproc group, directives that describe its own
+    instructions; the block is deleted whole: those go with it, the startproc group moves on"""
+    k = rng.randint(1, 2)
+    b1 = {"kind": "code", "func": 0, "entry": True, "insns": [["push"]] * k + [["nop"]], "syms": [{"name": "f", "at_end": False}],
+          "cfi": [[0, [[".cfi_startproc", [], None], [".cfi_def_cfa", [7, 8], None]]]] +
+                 [[i + 1, [[rng.choice([".cfi_def_cfa_offset", ".cfi_adjust_cfa_offset"]), [8 * (i + 2)] if False else [8], None]]] for i in range(k)]}
+    # offsets: push is one byte; normalise the directive names/args so that they evaluate (adjust by 8 per push)
+    b1["cfi"] = [b1["cfi"][0]] + [[i + 1, [[".cfi_adjust_cfa_offset", [8], None]]] for i in range(k)]
+    b2 = {"kind": "code", "func": 0, "insns": [["nop"], ["ret"]], "syms": [{"name": "f2", "at_end": False}],
+          "cfi": [[2, [[".cfi_endproc", [], None]]]]}
+    text = [b1, b2, {"kind": "code", "func": 1, "entry": True, "insns": [["ret"]], "syms": [{"name": "g", "at_end": False}]}]
+    edits = [{"op": "delete", "block": 0, "off": 0, "len": emodify.block_size(b1)}]
+    if rng.random() < 0.3:
+        edits.append({"op": "insert", "block": 1, "off": 1, "asm": "nop"})
+    return {"isa": "X64", "ff": "ELF", "text": text, "externs": ["ext_a"], "edits": edits}
+
+
 def run(ctx):
     import glob
     import os
@@ -362,6 +408,12 @@ def run(ctx):
     for f in sorted(glob.glob(os.path.join(os.path.dirname(os.path.dirname(os.path.dirname(os.path.abspath(__file__)))), "corpus", "c08", "*.json"))):
         ctx.count("corpus")
         check_case(ctx, json.load(open(f)), pending)
+    for _ in range(ctx.budget(30, 600)):
+        ctx.count("cold-block")
+        check_case(ctx, cold_block(ctx.rng), pending)
+    for _ in range(ctx.budget(20, 400)):
+        ctx.count("first-block-of-a-procedure-deleted")
+        check_case(ctx, first_block_deleted(ctx.rng), pending)
     for _ in range(ctx.budget(1500, 40000)):
         case = decorate(emodify.gen_case(ctx.rng), ctx.rng)
         if ctx.rng.random() < 0.12:
